@@ -5,9 +5,10 @@ package main
 
 import (
 	"fmt"
-	"os"
+	"go/constant"
 	"go/token"
 	"go/types"
+	"sort"
 	"strings"
 
 	"golang.org/x/tools/go/ssa"
@@ -30,6 +31,10 @@ type Cut struct {
 	DeferBarrier bool
 	// NoInline: analyse Fn alone; by default private helpers called only from Fn's root are followed as if inlined.
 	NoInline bool
+	// TrackFlags: the search remembers, per path, the value of boolean φ-nodes whose incoming value on the taken edge
+	// is a constant (the `found := false; for … { found = true }; if !found` idiom) and prunes branches on such a flag
+	// that the path cannot take. Flags with a non-constant incoming value are unknown (both branches are followed).
+	TrackFlags bool
 }
 
 type pt struct {
@@ -141,11 +146,13 @@ func (q *Cut) Run() *Witness {
 		p   pt
 		fr  *frame
 		ret *retInfo
+		env string // TrackFlags: canonical encoding of the known boolean φ values on this path
 	}
 	type key struct {
 		p   pt
 		fr  *frame
 		ret *retInfo
+		env string
 	}
 	// interned return contexts: (call, return, up-without-that-call) → canonical object
 	type rkey struct {
@@ -192,7 +199,7 @@ func (q *Cut) Run() *Witness {
 	}
 	seen := map[key]bool{}
 	push := func(st state, prev int) {
-		k := key{st.p, st.fr, st.ret}
+		k := key{st.p, st.fr, st.ret, st.env}
 		if seen[k] {
 			return
 		}
@@ -204,8 +211,35 @@ func (q *Cut) Run() *Witness {
 	}
 	root := rootFn(q.Fn)
 	if len(q.StartBlocks) > 0 {
+		// a start block may lie in a private helper (extract-method): then the path continues in the function at
+		// every call site of the helper
+		placed := map[*ssa.BasicBlock]bool{}
+		var addBlockStarts func(fn *ssa.Function, fr *frame, depth int)
+		addBlockStarts = func(fn *ssa.Function, fr *frame, depth int) {
+			for _, b := range q.StartBlocks {
+				if b.Parent() == fn {
+					placed[b] = true
+					push(state{p: pt{b, 0}, fr: fr}, -1)
+				}
+			}
+			if q.NoInline || depth >= 2 {
+				return
+			}
+			for _, b := range fn.Blocks {
+				for _, in := range b.Instrs {
+					if cl, ok := in.(*ssa.Call); ok {
+						if g := inlineable(root, cl, inlMemo); g != nil {
+							addBlockStarts(g, getFrame(in, fr), depth+1)
+						}
+					}
+				}
+			}
+		}
+		addBlockStarts(q.Fn, nil, 0)
 		for _, b := range q.StartBlocks {
-			push(state{p: pt{b, 0}}, -1)
+			if !placed[b] {
+				push(state{p: pt{b, 0}}, -1)
+			}
 		}
 	} else if q.Start == nil {
 		push(state{p: pt{q.Fn.Blocks[0], 0}}, -1)
@@ -239,9 +273,6 @@ func (q *Cut) Run() *Witness {
 	for h := 0; h < len(nodes); h++ {
 		n := nodes[h]
 		b, i := n.st.p.b, n.st.p.i
-		if os.Getenv("UQ_DEBUG_CUT") != "" {
-			fmt.Printf("    cut[%s] visit %s block %d idx %d depth %d\n", q.Fn.Name(), b.Parent().Name(), b.Index, i, depthOf(n.st.fr))
-		}
 		fr, ret := n.st.fr, n.st.ret
 		stopped := false
 		for ; i < len(b.Instrs); i++ {
@@ -253,7 +284,7 @@ func (q *Cut) Run() *Witness {
 				cb := fr.call.Block()
 				for k, x := range cb.Instrs {
 					if x == fr.call {
-						push(state{p: pt{cb, k + 1}, fr: fr.up, ret: ri}, h)
+						push(state{p: pt{cb, k + 1}, fr: fr.up, ret: ri, env: n.st.env}, h)
 					}
 				}
 				stopped = true
@@ -286,7 +317,7 @@ func (q *Cut) Run() *Witness {
 			// descend into a private helper
 			if cl, ok := in.(*ssa.Call); ok && !q.NoInline && depthOf(fr) < 2 {
 				if g := inlineable(root, cl, inlMemo); g != nil {
-					push(state{p: pt{g.Blocks[0], 0}, fr: getFrame(in, fr), ret: ret}, h)
+					push(state{p: pt{g.Blocks[0], 0}, fr: getFrame(in, fr), ret: ret, env: n.st.env}, h)
 					stopped = true
 					break
 				}
@@ -306,23 +337,148 @@ func (q *Cut) Run() *Witness {
 					continue
 				}
 				// correlation with what an inlined helper returned on this path: `if err != nil` right after the call
-				if infeasibleAfterReturn(ifi, s, ret) {
+				if infeasibleAfterReturn(ifi, s, ret, n.st.env) {
 					continue
 				}
-				push(state{p: pt{succ, 0}, fr: fr, ret: ret}, h)
+				if q.TrackFlags && flagInfeasible(ifi, s, n.st.env) {
+					continue
+				}
+				push(state{p: pt{succ, 0}, fr: fr, ret: ret, env: q.flagEnv(n.st.env, b, succ)}, h)
 			}
 		} else {
 			for _, succ := range b.Succs {
-				push(state{p: pt{succ, 0}, fr: fr, ret: ret}, h)
+				push(state{p: pt{succ, 0}, fr: fr, ret: ret, env: q.flagEnv(n.st.env, b, succ)}, h)
 			}
 		}
 	}
 	return nil
 }
 
+// flagEnv computes the flag environment after taking the edge from → to: boolean φ-nodes of `to` get the constant
+// (or the already known flag) that flows in along this edge; everything else is kept.
+func (q *Cut) flagEnv(env string, from, to *ssa.BasicBlock) string {
+	if !q.TrackFlags {
+		return ""
+	}
+	idx := -1
+	for i, p := range to.Preds {
+		if p == from {
+			if idx >= 0 {
+				idx = -2 // two edges from the same predecessor: ambiguous
+				break
+			}
+			idx = i
+		}
+	}
+	m := parseFlagEnv(env)
+	upd := map[string]int{}
+	for _, in := range to.Instrs {
+		ph, ok := in.(*ssa.Phi)
+		if !ok {
+			break
+		}
+		if b, isB := ph.Type().Underlying().(*types.Basic); !isB || b.Kind() != types.Bool {
+			continue
+		}
+		name := flagName(ph)
+		v := 0
+		if idx >= 0 && idx < len(ph.Edges) {
+			switch e := ph.Edges[idx].(type) {
+			case *ssa.Const:
+				if e.Value != nil {
+					if constant.BoolVal(e.Value) {
+						v = 1
+					} else {
+						v = -1
+					}
+				}
+			case *ssa.Phi:
+				v = m[flagName(e)]
+			}
+		}
+		upd[name] = v
+	}
+	for k, v := range upd {
+		if v == 0 {
+			delete(m, k)
+		} else {
+			m[k] = v
+		}
+	}
+	return formatFlagEnv(m)
+}
+
+func flagName(ph *ssa.Phi) string {
+	return fmt.Sprintf("%s.%d.%s", ph.Parent().Name(), ph.Block().Index, ph.Name())
+}
+
+func parseFlagEnv(env string) map[string]int {
+	m := map[string]int{}
+	for _, kv := range strings.Split(env, ";") {
+		if kv == "" {
+			continue
+		}
+		if strings.HasSuffix(kv, "=T") {
+			m[kv[:len(kv)-2]] = 1
+		} else if strings.HasSuffix(kv, "=F") {
+			m[kv[:len(kv)-2]] = -1
+		}
+	}
+	return m
+}
+
+func formatFlagEnv(m map[string]int) string {
+	keys := make([]string, 0, len(m))
+	for k := range m {
+		keys = append(keys, k)
+	}
+	sort.Strings(keys)
+	var sb strings.Builder
+	for _, k := range keys {
+		sb.WriteString(k)
+		if m[k] > 0 {
+			sb.WriteString("=T;")
+		} else {
+			sb.WriteString("=F;")
+		}
+	}
+	return sb.String()
+}
+
+// flagInfeasible: the branch tests a tracked flag (or its negation) whose value on this path excludes the edge.
+func flagInfeasible(ifi *ssa.If, succ int, env string) bool {
+	if env == "" {
+		return false
+	}
+	cond := ifi.Cond
+	neg := false
+	for {
+		if u, ok := cond.(*ssa.UnOp); ok && u.Op == token.NOT {
+			neg = !neg
+			cond = u.X
+			continue
+		}
+		break
+	}
+	ph, ok := cond.(*ssa.Phi)
+	if !ok {
+		return false
+	}
+	v := parseFlagEnv(env)[flagName(ph)]
+	if v == 0 {
+		return false
+	}
+	val := v > 0
+	if neg {
+		val = !val
+	}
+	// succ 0 is taken when the condition is true
+	return (succ == 0) != val
+}
+
 // infeasibleAfterReturn: the branch tests a result of an inlined helper against nil / a boolean, and the Return taken
 // on this path returned a value for which this edge cannot be taken.
-func infeasibleAfterReturn(ifi *ssa.If, succ int, ret *retInfo) bool {
+func infeasibleAfterReturn(ifi *ssa.If, succ int, ret *retInfo, env string) bool {
 	if ret == nil {
 		return false
 	}
@@ -381,6 +537,12 @@ func infeasibleAfterReturn(ifi *ssa.If, succ int, ret *retInfo) bool {
 			}
 			if isConstBool(rv, false) {
 				return pol
+			}
+		}
+		// the helper returned a flag whose value on this path is known (TrackFlags)
+		if ph, isPhi := rv.(*ssa.Phi); isPhi && env != "" {
+			if v := parseFlagEnv(env)[flagName(ph)]; v != 0 {
+				return (v > 0) != pol
 			}
 		}
 	}
